@@ -39,22 +39,40 @@ def _method(tree, cls, name):
     raise ValueError('%s.%s not found' % (cls, name))
 
 
-def _chain(f, atoms, setup, mutation):
+def _needs_key(src):
+    # evaluating `self[instance]` raises KeyError unless `instance in self` is known at that point
+    return 'self[instance]' in src
+
+
+def _chain(f, atoms, setup, mutation, key_guards=()):
+    """`key_guards`: conditions (source text) whose early return establishes `instance in self` for what follows; a
+    setup statement that creates the entry establishes it too.  A guard or mutation statement that reads
+    `self[instance]` before that is refused: the translated decision function treats its atoms as total Booleans,
+    which is only right where their evaluation cannot raise (audit round 2, B.2: deleting the first guard of
+    Link.disconnect used to leave the tie intact while unrelate raised KeyError)."""
     body = list(f.body)
     if body and isinstance(body[0], ast.Expr) and isinstance(getattr(body[0], 'value', None), ast.Constant):
         body = body[1:]
     guards = []
     seen_mutation = []
+    key_safe = False
     for st in body:
         src = ast.unparse(st)
         if src in setup:
-            if guards and False:
-                pass
+            key_safe = True
             continue
+        if isinstance(st, ast.If):
+            if _needs_key(ast.unparse(st.test)) and not key_safe:
+                raise ValueError('%s: `%s` reads self[instance] before `instance in self` is established (KeyError)'
+                                 % (f.name, ast.unparse(st.test)))
+        elif _needs_key(src) and not key_safe:
+            raise ValueError('%s: `%s` reads self[instance] before `instance in self` is established (KeyError)' % (f.name, src))
         if isinstance(st, ast.If) and not st.orelse and len(st.body) == 1 and isinstance(st.body[0], ast.Return) \
                 and isinstance(st.body[0].value, ast.Constant) and st.body[0].value.value in (True, False) \
                 and not seen_mutation:
             guards.append((_bool(st.test, atoms), 'retTrue' if st.body[0].value.value else 'retFalse'))
+            if ast.unparse(st.test) in key_guards:
+                key_safe = True
             continue
         if src in mutation:
             seen_mutation.append(src)
@@ -89,7 +107,8 @@ def generate(repo_dir):
         atoms={'instance not in self': '(!nonempty)', 'another_instance not in self[instance]': '(!present)'},
         setup=[],
         mutation=['self[instance].remove(another_instance)', 'if len(self[instance]) == 0:\n    del self[instance]',
-                  'return True'])
+                  'return True'],
+        key_guards=['instance not in self'])
     text = '''/-
   GENERATED by translator/gen_linkdecisions.py from xtuml/meta.py (Link.connect, Link.disconnect) — do not edit.
 -/
